@@ -13,7 +13,10 @@ PROPS = ["Invoke/Props/C11.lean"]
 TARGETS = ["drv_config"]
 DRIVER_ROOTS = ["Driver/Config.lean"]
 GENERATED = ["Clone"]
-RULE = ("[family B, 55%: CLONE HISTORIES - 1-3 clone target classes with their own global defaults used REPEATEDLY; clone() / "
+RULE = ("[family C, 20%: HANDLE HISTORIES (oracle only) - proxy handles obtained earlier and kept across later writes, loads, "
+        "merges and clones, used for set/del/pop/popitem/clear/setdefault/update and reads; demanded: an edit through a live "
+        "handle is effective at the root, and a clone made at any point - and of every object at the END of every history of "
+        "every family - reads like its original] [family B, 50%: CLONE HISTORIES - 1-3 clone target classes with their own global defaults used REPEATEDLY; clone() / "
         "clone(into=same or other class) of the original, of a clone, of a clone-into, at any point; interleaved with edits, "
         "deletions, load_*(merge=True), load_*(merge=False) made visible by a later merge()/load/env load/write, "
         "set_runtime_path+load_runtime, set_project_location+load_project, load_shell_env] "
@@ -45,7 +48,15 @@ def gen_case(rng):
     clone / of a clone-into) at any point, interleaved with edits, deletions and level (re)loads: load_*(merge=True),
     unmerged load_*(merge=False) made visible by a later merge()/load/env load/write, set_runtime_path+load_runtime,
     set_project_location+load_project, load_shell_env"""
-    if rng.random() < 0.45:
+    r = rng.random()
+    if r < 0.2:
+        # (C) HANDLE HISTORIES: proxy handles obtained earlier and kept across later writes / loads / merges / clones,
+        # used for every kind of edit; oracle only (the model has no object identity)
+        ops = c06.gen_handle_history(rng, maxlen=rng.randint(6, 24), files=rng.random() < 0.4, clone_p=0.15, levels=True)
+        if not any(o["op"] == "CLONE" for o in ops):
+            ops.append({"o": 0, "op": "CLONE"})
+        return {"kind": "c11", "ops": ops, "nomodel": True}
+    if r < 0.5:
         ops = c06.gen_history(rng, maxlen=rng.randint(4, 26), risky=0.25, files=rng.random() < 0.5, clone_p=0.12,
                               into_p=0.3, coll_p=0.5, max_objs=3)
     else:
@@ -163,7 +174,10 @@ def run_case(case, tmpdir):
         if cfglib.is_internal(r) or any(isinstance(v, str) for v in vs):
             fail, sig = "internal error %s from %s" % (r, cfglib.op_txt(op)), "other"
             break
-        if op["op"] == "CLONE" and not r.startswith("E:"):
+        if impl.violation:
+            fail, sig = impl.violation, "other"
+            break
+        if op["op"] == "CLONE" and not r.startswith("E:") and o not in impl.stale:
             if op.get("into") is None:
                 if cfglib.canon(vs[-1]) != cfglib.canon(vs[o]):
                     fail, sig = "clone reads %s, the original %s" % (cfglib.canon(vs[-1]), cfglib.canon(vs[o])), "other"
@@ -183,6 +197,10 @@ def run_case(case, tmpdir):
             break
         prev = vs
     stats = {}
+    if not fail and allviews:
+        why = cfglib.final_clone_check(impl)
+        if why:
+            fail, sig = why, "other"
     if not fail and allviews:
         why = alias_probe(impl, allviews[-1])
         if why:
@@ -223,8 +241,17 @@ def run(ctx):
     try:
         for _ in range(ctx.n(3000, 45000)):
             case = gen_case(rng)
+            nomodel = case.get("nomodel", False)
             ops, row, fail, sig, stats, results = run_case(case, tmp)
             case = {"kind": "c11", "ops": ops}
+            if nomodel:
+                case["nomodel"] = True
+                out.hist["handle_histories"] += 1
+                out.hist["handle_ops"] += sum(1 for o in ops if o["op"] == "HOP")
+                out.hist["handle_ops_after_a_remerge"] += sum(
+                    1 for i, o in enumerate(ops) if o["op"] == "HOP" and any(
+                        b["op"] in cfglib.MUTATORS + ("LOAD", "MERGE", "ENV") and b.get("o", 0) == o.get("o", 0)
+                        for b in ops[[j for j, x in enumerate(ops) if x["op"] == "HOLD" and x["h"] == o["h"]][0]:i]))
             muts = [r for o, r in zip(ops, results) if o["op"] in cfglib.MUTATORS and not r.startswith("E:")]
             clones = [o for o in ops if o["op"] == "CLONE"]
             out.case(case, bool(muts) and bool(clones))
@@ -267,9 +294,12 @@ def run(ctx):
                 out.hist["oracle_" + sig] += 1
                 if sig not in KNOWN_SIGS or out.hist["oracle_" + sig] <= 12:
                     out.fail(case, fail)
-            lines.append(cfglib.line(ops))
-            rows.append(row)
-            ran.append(case)
+            out.hist["delete_right_after_unmerged_load"] += sum(
+                1 for a, b in zip(ops, ops[1:]) if a["op"] == "LOADU" and b["op"] in ("DI", "DA", "POP"))
+            if not nomodel:
+                lines.append(cfglib.line(ops))
+                rows.append(row)
+                ran.append(case)
     finally:
         shutil.rmtree(tmp, ignore_errors=True)
     if ctx.model_ok:
